@@ -2,8 +2,8 @@
    harness (Rust, real code) and this model decode it the same way and print a
    canonical text result. The case reader is the Buffer model itself. *)
 From GD Require Import Base.Prelude Model.Strings Model.Buffer Model.Unreal2Str Model.BufOps.
-From GD Require Import Model.Net Model.Valve Model.ValveShow Model.Master Model.Settings Model.Quake.
-From GD Require Import Spec.Rand Spec.ValveSpec Spec.ValveGen Spec.CaseEnc Spec.MasterSpec Spec.QuakeSpec.
+From GD Require Import Model.Net Model.Valve Model.ValveShow Model.Master Model.Settings Model.Quake Model.Unreal2.
+From GD Require Import Spec.Rand Spec.ValveSpec Spec.ValveGen Spec.CaseEnc Spec.MasterSpec Spec.QuakeSpec Spec.Unreal2Spec.
 
 Definition rd_u8 : R N := read_uint true 1.
 Definition rd_u16 : R N := read_uint true 2.
@@ -289,6 +289,18 @@ Definition case_settings : R bytes :=
   | o => ret (show_outcome (fun _ => []) o ++ str ";")
   end.
 
+(* family 22: unreal2 query *)
+Definition case_unreal2 : R bytes :=
+  let* port := rd_u16 in
+  let* g := rd_opt (let* p := rd_toggle in let* m := rd_toggle in ret (mk_u2g p m)) in
+  let* ts := rd_tsettings in
+  let* n := rd_script in
+  match ts with
+  | Ok t => if 1000000 <? ts_retries_or_default t then ret model_abstains
+            else ret (show_query show_u2_response (u2_query port g t n))
+  | o => ret (show_outcome (fun _ => []) o ++ str "|")
+  end.
+
 (* family 20: quake query (version 1, 2, 3) *)
 Definition case_quake : R bytes :=
   let* port := rd_u16 in
@@ -313,6 +325,24 @@ Definition case_spec_quake : R bytes :=
        ++ str "np=" ++ show_N (lenN (qs_players st)) ++ str ";nv=" ++ show_N (lenN (qs_vars st))
        ++ str ";nodup=" ++ show_bool (nodup_keys (qs_vars st))).
 
+(* family 122: unreal2 spec case: seed, gather -> events | expected | tags
+   events: "T" (timeout) or hex datagram, comma separated *)
+Definition show_event (e : udp_event) : bytes := match e with Timeout => str "T" | Datagram d => show_hex d end.
+Definition case_spec_unreal2 : R bytes :=
+  let* seed := rd_u64 in
+  let* p := rd_toggle in let* m := rd_toggle in
+  let g := mk_u2g p m in
+  let st := fst (gen_u2_state seed) in
+  ret (intercalate (str ",") (map show_event (u2_script st g)) ++ str "|"
+       ++ show_u2_response (u2_expected st g) ++ str "|"
+       ++ str "np=" ++ show_N (lenN (all_players st)) ++ str ";npk=" ++ show_N (lenN (us_players st))
+       ++ str ";nmr=" ++ show_N (lenN (us_pairs st))).
+(* family 123: one string through the decoder: length, encoding, trailing NUL *)
+Definition case_spec_u2string : R bytes :=
+  let* len := rd_u8 in let* u := rd_u8 in
+  let w := gen_long_string len (negb (u =? 0)) in
+  ret (show_hex (enc_ustring w) ++ str "|" ++ show_str (expected_ustring w)).
+
 Definition run_case_R : R bytes :=
   let* fam := rd_u8 in
   if fam =? 1 then case_bufops
@@ -326,10 +356,13 @@ Definition run_case_R : R bytes :=
   else if fam =? 16 then case_master
   else if fam =? 18 then case_settings
   else if fam =? 20 then case_quake
+  else if fam =? 22 then case_unreal2
   else if fam =? 110 then case_spec_valve
   else if fam =? 116 then case_spec_master
   else if fam =? 117 then case_spec_denote
   else if fam =? 120 then case_spec_quake
+  else if fam =? 122 then case_spec_unreal2
+  else if fam =? 123 then case_spec_u2string
   else fail InvalidInput.
 
 Definition run_case (c : bytes) : bytes :=
